@@ -37,7 +37,9 @@ def obligations(tier):
                               bound=f"recipe {r} + one of the {nacc[r]} commands it accepts + one of {nall} commands; "
                                     f"{'SDL, ' + str(nseed) + ' id sequences' if sdl else 'DDL, id sequence 0'}; session {sess}"))
     # known finding F18: un-narrowed instance on the witness family
-    obs.append(Ob(id='describe.F18', module=M, func='describe_rebuilds', params='idseed: int', args='5, 2, 40, 18, True, 2, idseed, False',
+    from vlib.harness import C03_describe as H
+    r3 = list(H.RECIPES).index(3)
+    obs.append(Ob(id='describe.F18', module=M, func='describe_rebuilds', params='idseed: int', args=f'{r3}, 2, 40, 18, True, 2, idseed, False',
                   pre=[f'0 <= idseed < {nseed}'], timeout=T, group='F18', finding='F18',
                   bound='recipe 3 + two multi links forming a 3-level chain of overloaded links; SDL'))
     obs.append(Ob(id='twin.describe', module=M, func='describe_rebuilds', params='c0: int', post='not _', expect='cex',
